@@ -33,6 +33,11 @@ class UnitResult:
         self.rewrites = {}
         self.cuts = []
 
+# closures that have no ghost header on the unchanged tree (their results are not needed by any proof):
+# a function with MORE unannotated closures than this after a change contains a new closure whose result
+# Verus knows nothing about, so a failed proof there is undecided, not a violation
+BASE_UNANNOTATED = json.load(open(os.path.join(VERIF, "vx", "closures_baseline.json"))) if os.path.exists(os.path.join(VERIF, "vx", "closures_baseline.json")) else {}
+
 SAFETY_KINDS = {"overflow", "index", "div0"}
 
 def scan_assumptions(text):
@@ -334,10 +339,11 @@ def run_check(pid, tier, seed):
             if rec.mode in ("proved", "demoted"):
                 obligations += 1
                 solver_ms += ent["solver_us"] / 1000.0
-                if demoted or (fl and rec.lost_hints):
+                new_closures = getattr(rec, "unannotated_closures", 0) > P.get("_baseline_unannotated", {}).get(rec.qname, BASE_UNANNOTATED.get("%s/%s" % (unit, rec.qname), 0))
+                if demoted or (fl and (rec.lost_hints or new_closures)):
                     # the changed text is outside Verus' reach (unsupported construct / proof hint could not
                     # be placed): Verus does not decide this function any more; its bounded Kani twin does
-                    ent["status"] = "not decided by verus: " + (R.demoted.get(rec.qname) or "proof hints lost: %s" % rec.lost_hints)[:300]
+                    ent["status"] = "not decided by verus: " + (R.demoted.get(rec.qname) or ("proof hints lost: %s" % rec.lost_hints if rec.lost_hints else "the changed body contains a closure without a contract (closures have no postcondition in Verus)"))[:300]
                     ent["mode"] = "demoted (kani twin decides)"
                     needs_twin.append((unit, rec))
                     fl = []
